@@ -339,7 +339,7 @@ func VerifC49_run() {
 func VerifC49_run4() {
 	const L = 4
 	full := vfTier() > 0
-	quickKinds := [6]int{0, 1, 5, 7, 8, 13}                   // ret k, ret a, jgt k, ldb abs, ldh ind, tax
+	quickKinds := [6]int{0, 1, 5, 7, 8, 13}                     // ret k, ret a, jgt k, ldb abs, ldh ind, tax
 	fullKinds := [12]int{0, 1, 2, 3, 5, 6, 7, 8, 9, 11, 12, 13} // + and k, add x, jne x, msh, st, ldx M
 	prog := make([]Instruction, L)
 	for i := 0; i < L-1; i++ {
